@@ -50,6 +50,7 @@ class Tracer:
         self.stats = {"analyze": 0, "fix_changing": 0, "toi": 0, "toi_tokens": 0, "idx_checks": 0, "probes": 0}
         self.phase_now = 0
         self.reparse = False
+        self.check_viol = False
         self.mode = "fix"
 
     # ------------------------------------------------------------------ helpers
@@ -438,6 +439,27 @@ def emit_reparse(T, oFile):
     T.emit(res)
 
 
+def emit_check_violations(T, oRules):
+    """every violation standing after check_rules: rule, reported line, first/last line of its tokens, solution"""
+    import bisect
+
+    lAll = oRules.oVhdlFile.lAllObjects
+    crs = [i for i, t in enumerate(lAll) if isinstance(t, parser.carriage_return)]
+    out = []
+    for oRule in oRules.rules:
+        for v in oRule.violations:
+            try:
+                s0 = v.oTokens.iStartIndex
+                n = len([t for t in v.oTokens.lTokens if not _bof(t)])
+                lo = bisect.bisect_left(crs, s0) + 1 if s0 is not None else int(v.get_line_number() or 0)
+                hi = bisect.bisect_left(crs, max(s0, s0 + n - 1)) + 1 if s0 is not None else lo
+            except Exception:
+                lo = hi = int(v.get_line_number() or 0)
+            out.append({"rule": oRule.unique_id, "line": int(v.get_line_number() or 0), "lo": lo, "hi": hi, "sol": str(v.get_solution()),
+                        "sev": oRule.severity.name, "err": oRule.severity.type == severity.error_type, "phase": int(oRule.phase or 0)})
+    T.emit({"e": "CheckViol", "v": out})
+
+
 def fix_only_sel(oRule, dFixOnly):
     """what --fix_only says about this rule: -1 = no fix_only file, 0 = not listed, 1 = all, 2 = specific lines"""
     if dFixOnly is None:
@@ -618,6 +640,8 @@ def install():
             T.emit({"e": "CheckAbort", "exc": type(e).__name__})
             raise
         T.emit({"e": "CheckEnd", "last": int(self.lastPhaseRan), "ran": int(self.iNumberRulesRan), "viol": bool(self.violations)})
+        if T.check_viol:
+            emit_check_violations(T, self)
         return ret
 
     RL.check_rules = check_rules
